@@ -122,3 +122,88 @@ Print Assumptions maps_all_pins_src_is_step_raise.
 Print Assumptions add_conn_src_is_add_conn.
 Print Assumptions cut_connections_src_is_model.
 Print Assumptions add_structure_src_is_step_add.
+
+(* Structure.remove_connections / remove_pin *)
+Lemma filter_notin_s x l : ~ In x l -> filter (fun p => negb (spin_eqb p x)) l = l.
+Proof.
+  induction l as [|z r IH]; simpl; intros H; [reflexivity|].
+  destruct (spin_eqb_spec z x) as [->|_]; [exfalso; apply H; left; reflexivity|]. simpl. f_equal.
+  apply IH. intros Hin. apply H. right. exact Hin.
+Qed.
+
+Lemma remove1_filter_s x l : NoDup l -> remove1 x l = filter (fun p => negb (spin_eqb p x)) l.
+Proof.
+  induction l as [|y r IH]; simpl; intros H; [reflexivity|].
+  inversion H as [|? ? Hy Hr]; subst.
+  destruct (spin_eqb_spec y x) as [->|Hne]; simpl.
+  - symmetry. apply filter_notin_s. exact Hy.
+  - f_equal. apply IH. exact Hr.
+Qed.
+
+Lemma filter_NoDup_s (g : spin -> bool) l : NoDup l -> NoDup (filter g l).
+Proof.
+  induction l as [|y r IH]; simpl; intros H; [constructor|].
+  inversion H as [|? ? Hy Hr]; subst. destruct (g y); [|apply IH; exact Hr].
+  constructor; [|apply IH; exact Hr]. intros Hin. apply Hy. apply filter_In in Hin. tauto.
+Qed.
+
+Lemma filter_filter_mem k (G : list spin) pins :
+  filter (fun p => negb (mem p G)) (filter (fun p => negb (spin_eqb p k)) pins)
+  = filter (fun p => negb (mem p (k :: G))) pins.
+Proof.
+  induction pins as [|y l IHl]; simpl; [reflexivity|].
+  destruct (spin_eqb_spec y k) as [->|Hne]; simpl.
+  - rewrite spin_eqb_refl. simpl. exact IHl.
+  - destruct (spin_eqb_spec k y) as [Ek|_]; [congruence|]. simpl.
+    destruct (mem y G); simpl; [exact IHl | f_equal; exact IHl].
+Qed.
+
+Definition own_keys (me : nat) (t : sstruct) : Prop :=
+  NoDup (map fst (s_conn t)) /\ NoDup (s_pins t) /\
+  forall e, In e (s_conn t) -> fst (fst e) = me /\ In (fst e) (s_pins t).
+
+Lemma remove_loop (me target : nat)
+    (stp : list spin * list (spin * spin) * bool -> spin * spin -> list spin * list (spin * spin) * bool) :
+  (forall st it, stp st it = if Nat.eqb (fst (snd it)) target then remove_pin_src me st (snd (fst it)) else st) ->
+  forall l pre pins, NoDup (map fst (pre ++ l)) -> NoDup pins ->
+    (forall e, In e l -> fst (fst e) = me /\ In (fst e) pins) ->
+    fold_left stp l (pins, pre ++ l, false)
+    = (filter (fun p => negb (mem p (map fst (filter (fun e => Nat.eqb (fst (snd e)) target) l)))) pins,
+       pre ++ filter (fun e => negb (Nat.eqb (fst (snd e)) target)) l, false).
+Proof.
+  intros H. induction l as [|[k v] r IH]; intros pre pins Hn Hp Hk; simpl.
+  - f_equal. f_equal. clear. induction pins as [|y l IHl]; simpl; [reflexivity | f_equal; exact IHl].
+  - assert (Hkp : ~ In k (map fst pre)).
+    { rewrite map_app in Hn. simpl in Hn. apply NoDup_remove_2 in Hn. intros Hin. apply Hn. apply in_or_app. left. exact Hin. }
+    destruct (Hk (k, v) (or_introl eq_refl)) as [Hme Hin]. cbn [fst] in Hme, Hin.
+    rewrite H. cbn [fst snd].
+    destruct (Nat.eqb (fst v) target) eqn:E; cbn [negb].
+    + unfold remove_pin_src. replace (me, snd k) with k by (destruct k as [a b]; simpl in *; congruence).
+      rewrite dget_skip by exact Hkp. rewrite dpop_skip' by exact Hkp.
+      assert (M : mem k pins = true) by (apply mem_In; exact Hin). rewrite M.
+      rewrite IH.
+      * f_equal. f_equal. rewrite remove1_filter_s by exact Hp. cbn [map fst]. apply filter_filter_mem.
+      * rewrite map_app in *. simpl in Hn. apply NoDup_remove_1 in Hn. exact Hn.
+      * rewrite remove1_filter_s by exact Hp. apply filter_NoDup_s. exact Hp.
+      * intros e He. destruct (Hk e (or_intror He)) as [A B]. split; [exact A|].
+        rewrite remove1_filter_s by exact Hp. apply filter_In. split; [exact B|].
+        destruct (spin_eqb_spec (fst e) k) as [Ee|_]; [|reflexivity]. exfalso.
+        rewrite map_app in Hn. simpl in Hn. apply NoDup_remove_2 in Hn. apply Hn. apply in_or_app. right.
+        rewrite <- Ee. apply in_map. exact He.
+    + replace (pre ++ (k, v) :: r) with ((pre ++ [(k, v)]) ++ r) by (rewrite <- app_assoc; reflexivity).
+      rewrite IH.
+      * rewrite <- app_assoc. reflexivity.
+      * rewrite <- app_assoc. exact Hn.
+      * exact Hp.
+      * intros e He. apply Hk. right. exact He.
+Qed.
+
+Theorem remove_connections_src_is_model (me : nat) (t : sstruct) (target : nat) :
+  own_keys me t -> remove_connections_src me t target = remove_connections t target.
+Proof.
+  intros (Hn & Hp & Hk). unfold remove_connections_src, remove_connections.
+  destruct (negb (nmem target (s_to t))); [reflexivity|].
+  erewrite (remove_loop me target _ _ (s_conn t) [] (s_pins t)); [reflexivity | exact Hn | exact Hp | exact Hk].
+  Unshelve. intros st it. reflexivity.
+Qed.
+Print Assumptions remove_connections_src_is_model.
